@@ -11,10 +11,15 @@ Model of the searcher's block scheduler (C05), mirroring pkg/segment/query/proce
                                  unprocessed segment request; requests with end >= cutoff (start <= cutoff) are
                                  processed now, those with start >= cutoff (end <= cutoff) leave the list
   getFilteredBlocks (1046-1065)  blocks not handed out before whose HighTs >= cutoff (LowTs <= cutoff)
-  Fetch (307-325) + fetchRRCs (742-877)
-                                 the `!gotBlocks` refill, `endTime = max/min(endTime, cutoff)`, the
-                                 `remaining == 0 || endTime == cutoff` reset of gotBlocks, merge of the newly read
-                                 records with unsentRRCs, release of the valid prefix, EOF test
+  Fetch (307-325) + fetchRRCs (742-891)
+                                 the `!gotBlocks` refill, `endTime = max/min(endTime, cutoff)`, since the repair
+                                 `lastBlocks := gotAllSegments && len(nextBlocks) == len(remainingBlocksSorted)`
+                                 (tested BEFORE remainingBlocksSorted is shortened) which replaces the end time by
+                                 0 (recentFirst) / math.MaxUint64 (recentLast) so that everything kept back in
+                                 unsentRRCs is handed out, the `remaining == 0 || endTime == cutoff` reset of
+                                 gotBlocks, merge of the newly read records with unsentRRCs, release of the valid
+                                 prefix, EOF test.  The function before the repair (no `lastBlocks`) is kept as
+                                 `fetchRRCsOld` / `fetchOld` / `runFetchOld` for the counterexample theorems only.
   getSortingFunc / sortRRCs / utils.MergeSortedSlices (pkg/utils/sliceutils.go:382)
 
 A record is (id, ts).  Reading a block (readSortedRRCs: raw search / PQMR) is abstracted: a block carries the
@@ -205,11 +210,24 @@ def clampEnd : Mode → Nat → Nat → Nat
   | .recentFirst, e, c => max e c
   | .recentLast, e, c => min e c
 
-/-- `fetchRRCs`: none = io.EOF, otherwise (released batch, next state) -/
+/-- `math.MaxUint64`: timestamps are uint64 in the code, `Nat` in this model -/
+def maxU64 : Nat := 2 ^ 64 - 1
+
+/-- the end time once `lastBlocks` holds: `endTime = 0` (recentFirst) / `endTime = math.MaxUint64` (recentLast).
+`getValidRRCs` keeps the records with `!(ts < 0)` resp. `!(ts > MaxUint64)`: every uint64 timestamp. -/
+def flushEnd : Mode → Nat
+  | .recentFirst => 0
+  | .recentLast => maxU64
+
+/-- `lastBlocks := s.gotAllSegments && len(nextBlocks) == len(s.remainingBlocksSorted)`, evaluated before
+remainingBlocksSorted is shortened; `n` = number of blocks taken by getNextBlocks -/
+def lastBlocks (st : St) (n : Nat) : Bool := st.gotAll && n == st.remaining.length
+
+/-- `fetchRRCs` (after the repair): none = io.EOF, otherwise (released batch, next state) -/
 def fetchRRCs (m : Mode) (maxBlocks : Nat) (st : St) : Option (List Rec × St) :=
   if st.remaining.isEmpty && st.unsent.isEmpty && st.gotAll then none else
   let nb := getNextBlocks m st.remaining maxBlocks
-  let endTime := clampEnd m nb.2 st.cutoff
+  let endTime := if lastBlocks st nb.1.length then flushEnd m else clampEnd m nb.2 st.cutoff
   let remaining' := st.remaining.drop nb.1.length
   let gotBlocks' := if remaining'.isEmpty || endTime == st.cutoff then false else st.gotBlocks
   let merged := merge m (sortRRCs m (nb.1.flatMap (·.recs))) st.unsent
@@ -230,11 +248,36 @@ def runFetch (m : Mode) (maxBlocks : Nat) : Nat → St → List (List Rec) × Bo
       let r := runFetch m maxBlocks fuel st'
       (out :: r.1, r.2)
 
+/-! ### the scheduler BEFORE the repair (counterexample theorems only) -/
+
+/-- `fetchRRCs` before the repair: the end time is always clamped by the cut-off, also in the last round -/
+def fetchRRCsOld (m : Mode) (maxBlocks : Nat) (st : St) : Option (List Rec × St) :=
+  if st.remaining.isEmpty && st.unsent.isEmpty && st.gotAll then none else
+  let nb := getNextBlocks m st.remaining maxBlocks
+  let endTime := clampEnd m nb.2 st.cutoff
+  let remaining' := st.remaining.drop nb.1.length
+  let gotBlocks' := if remaining'.isEmpty || endTime == st.cutoff then false else st.gotBlocks
+  let merged := merge m (sortRRCs m (nb.1.flatMap (·.recs))) st.unsent
+  let valid := getValidRRCs m merged endTime
+  some (valid, { st with remaining := remaining', gotBlocks := gotBlocks', unsent := merged.drop valid.length })
+
+def fetchOld (m : Mode) (maxBlocks : Nat) (st : St) : Option (List Rec × St) :=
+  fetchRRCsOld m maxBlocks (refill m st)
+
+def runFetchOld (m : Mode) (maxBlocks : Nat) : Nat → St → List (List Rec) × Bool
+  | 0, _ => ([], false)
+  | fuel + 1, st =>
+    match fetchOld m maxBlocks st with
+    | none => ([], true)
+    | some (out, st') =>
+      let r := runFetchOld m maxBlocks fuel st'
+      (out :: r.1, r.2)
+
 def allBlocks (segs : List Seg) : List Block := segs.flatMap (·.blocks)
 
 def allRecs (segs : List Seg) : List Rec := (allBlocks segs).flatMap (·.recs)
 
-/-- number of Fetch calls after which a well-formed newest-first run has certainly reached EOF -/
+/-- number of Fetch calls after which a run has certainly reached EOF -/
 def fuelBound (segs : List Seg) : Nat := 2 * (segs.length + (allBlocks segs).length) + 4
 
 /-- `scrollProcessor.Process` over a sequence of batches (scroller.go:33): state = scrollFrom -/
